@@ -44,14 +44,19 @@ CLAIMED = {
           "result is unmodified (C04_fit_no_wrap). No-panic of the whole evaluator: the model's result type has no panic for built-ins; the impl "
           "is run in BOTH debug and release builds and the two must agree. " + TIE,
           "Coq kernel; debug + release builds of the harness; rust_decimal modelled.", "Coq proofs over the handler model + two-profile differential correspondence", "6/C04"),
- "C05": C("Proof (Coq), partial. Proved: an unterminated string and a malformed digit run are lexical errors for every table (C05_unterminated_string, "
-          "C05_malformed_number), a lexical error anywhere makes the whole parse an error - it is never swallowed or skipped (C05_lexical_error_rejected, "
-          "mutual induction over the parser), expect() succeeds only on exactly the expected token (C05_expect_exact), an operator without prefix role, a stray "
-          "comma/semicolon/closing delimiter or the end of input cannot start an operand (C05_operator_needs_operand_role, C05_stray_tokens). The "
-          "whole-grammar no-junk theorem (C) is not yet ported: on every run every accepted input (of all token sequences up to length 3-4 over 24 "
-          "representative tokens incl. quoted separators, and corruptions) is checked against an independent recogniser of the leniently read grammar "
-          "and against the token multiset of its AST. " + TIE, "Coq kernel; in_L recogniser in vlib/props/c05.py as oracle.",
-          "Coq proofs of the rejection clauses + exhaustive token-sequence correspondence against an independent recogniser", "6/C05"),
+ "C05": C("Proof (Coq). NO JUNK (C05_grammar_sound, lemma (C), Lemmas/Grammar.v): for every operator table with positive infix precedences, whatever the parser "
+          "model accepts is derivable in the documented lenient grammar Gprog (literals, names, calls, lists/maps with optional trailing comma, parentheses, prefix/"
+          "postfix/infix operators, `x not OP y`, conditionals, statements with optional `;`) and the returned tree is the tree of that derivation - no token dropped, "
+          "none read as another, every delimiter and separator matched by spelling; proved by induction on the fuel over all eight parser functions. Hence anything "
+          "outside the grammar is answered Err (C05_outside_grammar_rejected, with C01's no-panic and termination), in particular a program starting with a stray "
+          "comma/semicolon/closing delimiter/non-prefix operator or ending with an operator lacking its operand, an opening delimiter or a comma "
+          "(C05_bad_start_rejected, C05_bad_end_rejected); the dumped built-in table meets the hypothesis (C05_builtin_table_positive). Lexical clauses: an unterminated "
+          "string and a malformed digit run are lexical errors for every table (C05_unterminated_string, C05_malformed_number), a lexical error anywhere makes the whole "
+          "parse an error (C05_lexical_error_rejected), expect() succeeds only on exactly the expected token (C05_expect_exact). On every run every accepted input (all "
+          "token sequences up to length 3-4 over 24 representative tokens incl. quoted separators, and corruptions) is also checked against an independent recogniser "
+          "of the leniently read grammar and against the token multiset of its AST. " + TIE,
+          "Coq kernel; the grammar relation G is the specification (read it in Lemmas/Grammar.v); in_L recogniser in vlib/props/c05.py as run-time oracle.",
+          "Coq proof (parser sound w.r.t. the grammar relation, all tables) + exhaustive token-sequence correspondence against an independent recogniser", "6/C05"),
  "C06": C("Proof (Coq) over the evaluator model for ARBITRARY handlers: x op= e binds exactly the handler's result in the state after e and "
           "yields None (C06_assign), fails and binds nothing when the handler fails (C06_assign_fails), touches one name of one context (C06_frame), "
           "a non-name target is an error (C06_non_name), unbound reads None (C06_read), programs run in order, value of the last statement, None when "
